@@ -156,10 +156,12 @@ add("crc_native", "adsb_deku", L + "obl_crc_native", props=["C03-native"], stubs
     domain="native search / replay only", functions=["crc::modes_checksum"])
 
 V = "crate::verif_obl_vel::"
-add("vel_calc", "adsb_deku", V + "obl_velocity_calc", props=["C07", "C01", "C20"], features=("std", "alloc"),
-    stubs=["libm::atan2 => crate::verif_obl_vel::atan2_stub", "libm::hypot => crate::verif_obl_vel::hypot_stub"],
-    domain="all subtypes x all 2^22 velocity words x all 2^10 vertical-rate codes; atan2/hypot results arbitrary within the stated envelope",
-    functions=["adsb::AirborneVelocity::calculate", "Sign::value"])
+for _st in range(8):
+    add("vel_calc_st%d" % _st, "adsb_deku", V + "obl_velocity_calc", args="%d" % _st, props=["C07", "C01", "C20"], features=("std", "alloc") if _st in (1, 2) else ("std",),
+        stubs=["libm::atan2 => crate::verif_obl_vel::atan2_stub", "libm::hypot => crate::verif_obl_vel::hypot_stub"],
+        tier="quick" if _st in (0, 1, 2, 3) else "thorough", timeout=1200,
+        domain="subtype %d x all 2^22 velocity words x all 2^10 vertical-rate codes; atan2/hypot results arbitrary within the stated envelope" % _st,
+        functions=["adsb::AirborneVelocity::calculate", "Sign::value"])
 
 P = "crate::cpr::verif_cpr::"
 PM_STUB = "crate::cpr::positive_mod => crate::cpr::verif_cpr::positive_mod_contract"
